@@ -147,13 +147,13 @@ func runClientBody(body []byte, abrupt bool) (msgs [][]byte, fin int64, panicked
 	}
 	defer runtime.KeepAlive(cs)
 	cs.CloseSend()
+	var m RawMsg // one destination for every receive
 	for {
-		var m RawMsg
 		err := cs.RecvMsg(&m)
 		if err != nil {
 			return msgs, finClass(err), nil
 		}
-		msgs = append(msgs, m.B)
+		msgs = append(msgs, append([]byte{}, m.B...))
 		if len(msgs) > 10000 {
 			return msgs, 2, "runaway"
 		}
@@ -194,14 +194,14 @@ func runServerBody(kind string, body []byte, abrupt bool) (msgs [][]byte, fin in
 		}
 	}
 	svc := &hx.Svc{Stream: func(_ string, ss grpc.ServerStream) error {
+		var m RawMsg // ONE destination for every receive: each frame replaces what the previous one left
 		for {
-			var m RawMsg
 			err := ss.RecvMsg(&m)
 			if err != nil {
 				fin = finClass(err)
 				return nil
 			}
-			msgs = append(msgs, m.B)
+			msgs = append(msgs, append([]byte{}, m.B...))
 			if len(msgs) > 10000 {
 				fin = 2
 				return nil
